@@ -121,7 +121,16 @@ static std::vector<uint8_t> execute(const Spec& s, uint64_t place_seed, int pref
     }
     case REIM_TO64_S: {
       double* x = (double*)P.in(2 * m * 8);
-      dfill(x, 2 * m, d, s.divisor);  // |x/d| < 2^20: inside both variants' domains
+      dfill(x, 2 * m, d, s.divisor);  // |x/d| < 2^20 ...
+      {
+        // ... plus a few values in the top two binades below the declared bound 2^min(log2bound,52) (the fast variant is only valid below
+        // 2^50, the wide one below 2^52): a cache that hands out the wrong variant is only visible on such magnitudes
+        const unsigned L = s.p1 < 52 ? s.p1 : 52;
+        for (uint64_t q = 0; q < 2 * m; q += 3) {
+          double mag = std::ldexp(0.5 + 0.499 * d.unit(), (int)L - (int)d.below(2));
+          x[q] = std::floor(mag) * s.divisor * (d.below(2) ? -1.0 : 1.0);
+        }
+      }
       int64_t* r = (int64_t*)P.out(2 * m * 8);
       if (!fresh) reim_to_znx64_simple(m, s.divisor, s.p1, r, x); else { auto* t = new_reim_to_znx64_precomp(m, s.divisor, s.p1); reim_to_znx64(t, r, x); free(t); }
       grab(r, 2 * m * 8);
